@@ -42,6 +42,18 @@ def cases(tier, seed):
                    source='ds', nclients=rnd.choice([2, 3]), nstores=rnd.randint(1, 2),
                    same_uid=rnd.random() < 0.3, outcome='success', size=rnd.choice([0, 10, 100]),
                    fault=None, align=False, mixed_ts=True, hot=True, seed=seed * 100019 + i)
+    # slow receiver: the two kernels buffer only `cap` bytes between the applications and the
+    # storing side stops reading for many seconds in the middle of a transfer that is larger
+    # than that - the sender has to wait (flow control), nothing may be lost or given up
+    for i in range(60 if tier == 'quick' else 3000):
+        yield dict(ts=rnd.choice(sorted(TSS)), cmax=rnd.choice([1024, 16384, 65536]),
+                   smax=rnd.choice([1024, 16384, 65536]), recv=rnd.choice(['tempfile', 'dir', 'mem']),
+                   source=rnd.choice(['ds', 'file']), nclients=1, nstores=rnd.randint(1, 2),
+                   same_uid=False, outcome=rnd.choice(['success', 'warning']),
+                   size=rnd.choice([20000, 60000]), fault=None, align=False, mixed_ts=False,
+                   slow=dict(cap=rnd.choice([2048, 8192, 32768]),
+                             stall=rnd.choice([6.0, 12.0, 45.0]), at=rnd.randint(60, 400)),
+                   seed=seed * 100057 + i)
     # (the bulk comes last so that a wall-clock budget cut never drops the family above)
     n = 1500 if tier == 'quick' else 100000
     for i in range(n):
@@ -114,6 +126,8 @@ def run_case(case):
     import pynetdicom2
     rnd = random.Random('c15r/%s' % case['seed'])
     world = SimWorld('c15/%s' % case['seed'], with_fs=True)
+    if case.get('slow'):
+        world.net.capacity = case['slow']['cap']
     fs = world.fs
     viol = []
     ts = TSS[case['ts']]
@@ -226,6 +240,18 @@ def run_case(case):
         for c in range(case['nclients']):
             world.spawn(lambda c=c: client(c), 'client%d' % c)
         faulty = case.get('fault')
+        if case.get('slow'):
+            from .. import sched
+            sl = case['slow']
+
+            def do_slow():
+                duls = [x for x in world.sim.tasks if x.role == 'dul' and not x.done]
+                if len(duls) >= 2:
+                    world.sim.stall(duls[-1], sl['stall'])      # the storing side's provider
+                    world.sim.bump('fault.slow_receiver')
+            world.sim.actors.append(sched.Trigger(
+                'slow', lambda: world.sim.steps >= sl['at'] and
+                len([x for x in world.sim.tasks if x.role == 'dul']) >= 2, do_slow))
         pre = None
         if case.get('hot'):
             from .. import preempt
